@@ -191,9 +191,14 @@ def oracle(ctx, seeds=None):
             exp = r0[k] * cf[k] / tf
             if not np.array_equal(rs[k], exp):
                 err = float(np.max(np.abs(rs[k] - exp))) / (fsc[k] * cf[k] / tf)
-                if err <= 1e-13:
+                # bit for bit is demanded wherever every operation of the code commutes exactly with power-of-two factors; it cannot
+                # be where non-integer powers / roots of dimensional mixtures (total-quantity and characteristic boundary states),
+                # Python-scalar pow() (Burgers flux loop), the nozzle section polynomial or the regularised limiters (K1) enter
+                inexact = (lim in ('vanalbada', 'vanleer') or model in ('burgers', 'nozzle')
+                           or any(b_ in ('insub', 'insub_cbc', 'insup', 'outsub_qtot', 'outsub_nrcbc', 'outsub_rh') for b_ in bct))
+                if err <= 1e-13 and inexact:
                     # last-bit differences (libm pow() on scalars is not exactly scale-equivariant): counted, not a failure
-                    res.count('units-not-bitwise-within-1e-13'); continue
+                    res.count('units-not-bitwise-within-1e-13'); res.count('nb:%s:%s:%s:%s:%s:%s:%s' % (model, cfg['flux'], bct[0], bct[1], cfg['scheme'][0], lim, cfg['mesh']['kind'])); continue
                 key = '%s:units-rhs' % model if err > 1e-9 else '%s:units-not-bitwise' % model
                 if lim in ('vanalbada', 'vanleer'):
                     key += ':regularised-limiter:%s' % lim
